@@ -233,8 +233,10 @@ Copies(vm, p, from, rep) ==
 
 Budget == MaxItems - nit
 Done(s) == Len(s) = 1 /\ Exhausted(s[1])
-Case(it, vm) == [ty |-> ty, toks |-> it, val |-> {[p |-> k, v |-> vm[k]] : k \in DOMAIN vm}]
-Finish(s, it, vm) == (Emit /\ Done(s)) => CSVWrite("%1$s", <<ToJson(Case(it, vm))>>, IOEnv.OUT)
+(* ovr: some `{` or string discarded an earlier initializer of (a part of) its subobject (p19) *)
+Overrides(lg) == \E i \in 1..Len(lg) : lg[i].k = "c" /\ \E j \in 1..(i - 1) : lg[j].k = "w" /\ PathPrefix(lg[i].p, lg[j].p)
+Case(it, vm, lg) == [ty |-> ty, toks |-> it, val |-> {[p |-> k, v |-> vm[k]] : k \in DOMAIN vm}, ovr |-> Overrides(lg)]
+Finish(s, it, vm, lg) == (Emit /\ Done(s)) => CSVWrite("%1$s", <<ToJson(Case(it, vm, lg))>>, IOEnv.OUT)
 
 ----------------------------------------------------------------------------
 Init == /\ ty \in Types
@@ -253,14 +255,14 @@ Value ==
       f  == Top(s1)
       ws == [d \in 1..(rng + 1) |-> W(IF Plain(f) THEN f.p ELSE Append(f.p, f.c + d - 1), v)]
       s2 == Norm(Mark(AdvTop(s1, rng)))
-      it == Append(items, [a |-> "V", v |-> v, c |-> TT[KidTy(f)].c])
+      it == Append(items, [a |-> "V", v |-> v, c |-> TT[KidTy(f)].c, p |-> ws[1].p])
   IN /\ ~tc /\ Budget >= 1
      /\ ~Exhausted(Top(s0))                              \* no excess initializers (p2)
      /\ (rng > 0 \/ IsRoot(Top(s0))) => ~IsAgg(KidTy(Top(s0)))
      /\ val' = PutAll(val, ws) /\ log' = log \o ws
      /\ stack' = s2 /\ items' = it
      /\ dz' = 0 /\ rng' = 0 /\ nit' = nit + 1 /\ UNCHANGED <<ty, tc, ntc>>
-     /\ Finish(s2, it, val')
+     /\ Finish(s2, it, val', log')
 
 Str(l, pre) ==
   LET s0 == Cur
@@ -279,7 +281,7 @@ Str(l, pre) ==
             ELSE FlattenSeq([d \in 1..(rng + 1) |-> StrWrites(IF Plain(f) THEN f.p ELSE Append(f.p, f.c + d - 1), n, l, pre)])
       s2 == IF own THEN Mark([s1 EXCEPT ![Len(s1)].c = Big + 1])     \* nothing may follow inside these braces
             ELSE Norm(Mark(AdvTop(s1, rng)))
-      it == Append(items, [a |-> "S", l |-> l, pre |-> pre])
+      it == Append(items, [a |-> "S", l |-> l, pre |-> pre, p |-> ws[1].p])
   IN /\ ~tc /\ Budget >= 1
      /\ ~Exhausted(f0)
      /\ s1 # <<>>
@@ -287,7 +289,7 @@ Str(l, pre) ==
      /\ val' = PutAll(val, ws) /\ log' = log \o ws
      /\ stack' = s2 /\ items' = it
      /\ dz' = 0 /\ rng' = 0 /\ nit' = nit + 1 /\ UNCHANGED <<ty, tc, ntc>>
-     /\ Finish(s2, it, val')
+     /\ Finish(s2, it, val', log')
 
 Open ==
   LET s0 == Cur
@@ -298,7 +300,7 @@ Open ==
      /\ ~Exhausted(f)
      /\ (IF IsRoot(f) THEN TRUE ELSE IsAgg(f.t))                        \* no {{scalar}}
      /\ val' = PutAll(val, ws) /\ log' = log \o ws
-     /\ stack' = s1 /\ items' = Append(items, [a |-> "O"])
+     /\ stack' = s1 /\ items' = Append(items, [a |-> "O", p |-> ws[1].p])
      /\ dz' = 0 /\ rng' = 0 /\ nit' = nit + 1 /\ UNCHANGED <<ty, tc, ntc>>
 
 CanClose == /\ dz = 0
@@ -316,7 +318,7 @@ Close ==
      /\ val' = PutAll(val, ws) /\ log' = log \o ws
      /\ stack' = s1 /\ items' = it
      /\ tc' = FALSE /\ UNCHANGED <<ty, dz, rng, nit, ntc>>
-     /\ Finish(s1, it, val')
+     /\ Finish(s1, it, val', log')
 
 TrailingComma ==
   /\ CanClose /\ ~tc /\ ntc < MaxTC
